@@ -34,7 +34,9 @@ type Net struct {
 	OnAck    func(follower string, term int64, a *proto.Ack)
 	// OnAckSend observes an ack at the instant the follower hands it to the stream.
 	OnAckSend func(st *RepStream, a *proto.Ack)
-	Streams   []*RepStream
+	// Blocked reports a network partition between the caller (by thread group) and a follower.
+	Blocked func(ownerGrp int, follower string) bool
+	Streams []*RepStream
 }
 
 type grouper interface{ group() int }
@@ -59,9 +61,19 @@ type RepStream struct {
 	ownerGrp   int
 }
 
+func (n *Net) blocked(follower string) bool {
+	if n.Blocked == nil {
+		return false
+	}
+	if s := vsched.Active(); s != nil && s.Cur() != nil {
+		return n.Blocked(s.Cur().Group, follower)
+	}
+	return false
+}
+
 func (n *Net) GetReplicateStream(ctx context.Context, follower string, namespace string, shard int64, term int64) (proto.OxiaLogReplication_ReplicateClient, error) {
 	ep, ok := n.Peers[follower]
-	if !ok || n.Down[follower] {
+	if !ok || n.Down[follower] || n.blocked(follower) {
 		return nil, ErrUnavailable
 	}
 	md := metadata.New(map[string]string{"shard-id": itoa(shard), "term": itoa(term), "namespace": namespace})
@@ -213,7 +225,7 @@ type snapStream struct {
 
 func (n *Net) SendSnapshot(ctx context.Context, follower string, namespace string, shard int64, term int64) (proto.OxiaLogReplication_SendSnapshotClient, error) {
 	ep, ok := n.Peers[follower]
-	if !ok || n.Down[follower] {
+	if !ok || n.Down[follower] || n.blocked(follower) {
 		return nil, ErrUnavailable
 	}
 	md := metadata.New(map[string]string{"shard-id": itoa(shard), "term": itoa(term), "namespace": namespace})
@@ -297,7 +309,7 @@ func (s *snapServer) RecvMsg(any) error            { return errors.New("not supp
 
 func (n *Net) Truncate(follower string, req *proto.TruncateRequest) (*proto.TruncateResponse, error) {
 	ep, ok := n.Peers[follower]
-	if !ok || n.Down[follower] {
+	if !ok || n.Down[follower] || n.blocked(follower) {
 		return nil, ErrUnavailable
 	}
 	if s := vsched.Active(); s != nil {
